@@ -38,6 +38,7 @@ def check_prefixes(rep, drv, case, mode, data, with_schema, cuts):
     dec = codec.DEC[cdc]
     schema = case.schema if with_schema else None
     for k in cuts:
+        common.arm_watchdog()       # the deadline is for the decoder to come back on one prefix, not for every cut of a long encoding
         pre = data[:k]
         base = dict(case.replay, kind='prefix', enc=list(mode), bytes=data.hex(), cut=k, schema=with_schema)
         # (a) one-shot on bytes
